@@ -771,6 +771,10 @@ impl Iterator for BitSetRangeIter<'_> {
     }
 }
 
+#[cfg(googlefonts_fontations_verif)]
+#[path = "/verif/harness/incrate/bitset.rs"]
+mod verif_harness;
+
 #[cfg(test)]
 mod test {
     use super::*;
